@@ -77,3 +77,44 @@ def bvmat(R, ntaxa, ntrait, names=None):
         raw, taxa=obj(names if names is not None else ["f%d" % i for i in range(ntaxa)]),
         taxa_grp=numpy.array([R.randint(0, 2) for _ in range(ntaxa)]),
         trait=obj(["tr%d" % i for i in range(ntrait)]))
+
+
+# ---------------------------------------------------------------- optimisation problems
+def _sumtr(x, latent, **k):
+    return latent.sum(keepdims=True)
+
+
+def _identtr(x, latent, **k):
+    return latent
+
+
+def ebv_problem(kind, ebv, nobj=1, ndecn=None, con=False, maxint=3):
+    """Small EBV selection problem in one of the four encodings (kind: subset/real/integer/binary)."""
+    from pybrops.breed.prot.sel.prob.EstimatedBreedingValueSelectionProblem import (
+        EstimatedBreedingValueSubsetSelectionProblem as PS, EstimatedBreedingValueRealSelectionProblem as PR,
+        EstimatedBreedingValueIntegerSelectionProblem as PI, EstimatedBreedingValueBinarySelectionProblem as PB)
+    n, nt = ebv.shape
+    tr = _sumtr if nobj == 1 else None
+    kw = {}
+    if nobj != 1 and nobj != nt:
+        raise ValueError("nobj must be 1 or ntrait")
+    if con:
+        thr = float(numpy.median(ebv[:, -1]))
+
+        def cvtr(x, latent, **k):          # violation when the last latent component exceeds a threshold
+            return numpy.array([max(0.0, float(latent[-1]) + thr)])
+        kw = dict(nineqcv=1, ineqcv_wt=numpy.array([1.0]), ineqcv_trans=cvtr)
+    if kind == "subset":
+        k = ndecn or max(1, n // 3)
+        return PS(ebv=ebv, ndecn=k, decn_space=numpy.arange(n), decn_space_lower=numpy.repeat(0, k),
+                  decn_space_upper=numpy.repeat(n - 1, k), nobj=nobj, obj_trans=tr, **kw)
+    if kind == "real":
+        return PR(ebv=ebv, ndecn=n, decn_space=numpy.stack([numpy.zeros(n), numpy.ones(n)]), decn_space_lower=numpy.zeros(n),
+                  decn_space_upper=numpy.ones(n), nobj=nobj, obj_trans=tr, **kw)
+    if kind == "integer":
+        return PI(ebv=ebv, ndecn=n, decn_space=numpy.stack([numpy.zeros(n, dtype=int), numpy.repeat(maxint, n)]),
+                  decn_space_lower=numpy.zeros(n, dtype=int), decn_space_upper=numpy.repeat(maxint, n), nobj=nobj, obj_trans=tr, **kw)
+    if kind == "binary":
+        return PB(ebv=ebv, ndecn=n, decn_space=numpy.stack([numpy.zeros(n, dtype=int), numpy.ones(n, dtype=int)]),
+                  decn_space_lower=numpy.zeros(n, dtype=int), decn_space_upper=numpy.ones(n, dtype=int), nobj=nobj, obj_trans=tr, **kw)
+    raise ValueError(kind)
